@@ -19,8 +19,8 @@ type opTracer struct {
 }
 
 type opEnv struct {
-	side map[ssa.Value]string        // Sample or float64 values -> "L" / "R"
-	fns  map[ssa.Value]*opClosure    // func-typed params / free vars -> resolved function values
+	side map[ssa.Value]string     // Sample or float64 values -> "L" / "R"
+	fns  map[ssa.Value]*opClosure // func-typed params / free vars -> resolved function values
 }
 
 type opClosure struct {
@@ -606,7 +606,6 @@ func sortedKeysOf(m map[string]string) []string {
 	sort.Strings(ks)
 	return ks
 }
-
 
 // stepSide: does v (a Sample value or field of it) come from the left or the right input step?
 func stepSides(fn *ssa.Function) (map[ssa.Value]string, map[*ssa.Alloc]string) {
